@@ -94,6 +94,18 @@ CHECKS = {
         note="Trusted: TLC, the renderer (kotlinc/groovyc/scalac formats from documentation; javac cross-checked with the real compiler), "
              "token-based message identification.",
     ),
+    "C15": dict(
+        category="model_checking",
+        technique="TLA+ state machine of the driver (HDriver: decision table, counters, files, sequential and worker-pool interleavings) "
+                  "model-checked by TLC; TLC-generated whole-session scenarios run as real sessions; recorded events replayed as behaviours of "
+                  "HDriver by TLC (trace validation with inferred update order)",
+        text="Design: invariants Totals / NoLeftovers / SavedOnlyFaults and liveness over every outcome x verdict x crash combination and every "
+             "interleaving of asynchronous checks. Code: exhaustive 1-2 program sessions plus random 4-7 program sessions, sequential and "
+             "fork-pool mode, with the real gen_program / check_oracle / update_stats / save_stats / run / run_parallel; every event checked.",
+        design_ref="DESIGN.md §5 C15",
+        note="Trusted: TLC, the stand-in compiler (javac-format output, parsed by the real analysis), scripted ProgramProcessor. "
+             "Event order in pool mode is the order of atomic appends to one log.",
+    ),
 }
 
 NOT_YET = "check not built yet (work in progress in this session; see DESIGN.md §10 for the order of work)"
